@@ -82,6 +82,8 @@ pub enum Ex {
     Opt(Box<Node>),
     Rep(Box<Node>),
     RepOnce(Box<Node>),
+    /// counted repetition of the *unoptimized* AST: (min, max)
+    RepCount(Box<Node>, u32, Option<u32>),
     Skip(Vec<String>),
     Push(Box<Node>),
     Restore(Box<Node>),
@@ -257,7 +259,145 @@ impl<'a> Conv<'a> {
     }
 }
 
+impl<'a> Conv<'a> {
+    /// Conversion of the *unoptimized* AST (what the generator translates with `pest_optimizer = false`).
+    fn conv_raw(&mut self, e: &pest_meta::ast::Expr) -> Node {
+        use pest_meta::ast::Expr;
+        match e {
+            Expr::Str(s) => self.node(Ex::Str(s.clone())),
+            Expr::Insens(s) => self.node(Ex::Insens(s.clone())),
+            Expr::Range(a, b) => {
+                let a = a.chars().next().unwrap();
+                let b = b.chars().next().unwrap();
+                self.node(Ex::Range(a, b))
+            }
+            Expr::Ident(name) => {
+                let target = if let Some(i) = self.by_name.get(name) {
+                    Target::Rule(*i)
+                } else if let Some(b) = builtin_by_name(name) {
+                    Target::Builtin(b)
+                } else {
+                    self.errors.push(format!("undefined rule {}", name));
+                    Target::Builtin(Builtin::Any)
+                };
+                self.node(Ex::Ident(name.clone(), target))
+            }
+            Expr::PeekSlice(a, b) => self.node(Ex::PeekSlice(*a, *b)),
+            Expr::PosPred(e) => {
+                let n = self.conv_raw(e);
+                self.node(Ex::PosPred(Box::new(n)))
+            }
+            Expr::NegPred(e) => {
+                let n = self.conv_raw(e);
+                self.node(Ex::NegPred(Box::new(n)))
+            }
+            Expr::Seq(_, _) => {
+                let mut items = vec![];
+                let mut cur = e;
+                while let Expr::Seq(l, r) = cur {
+                    items.push(self.conv_raw(l));
+                    cur = r;
+                }
+                items.push(self.conv_raw(cur));
+                self.node(Ex::Seq(items))
+            }
+            Expr::Choice(_, _) => {
+                let mut items = vec![];
+                let mut cur = e;
+                while let Expr::Choice(l, r) = cur {
+                    items.push(self.conv_raw(l));
+                    cur = r;
+                }
+                items.push(self.conv_raw(cur));
+                self.node(Ex::Choice(items))
+            }
+            Expr::Opt(e) => {
+                let n = self.conv_raw(e);
+                self.node(Ex::Opt(Box::new(n)))
+            }
+            Expr::Rep(e) => {
+                let n = self.conv_raw(e);
+                self.node(Ex::Rep(Box::new(n)))
+            }
+            Expr::RepOnce(e) => {
+                let n = self.conv_raw(e);
+                self.node(Ex::RepOnce(Box::new(n)))
+            }
+            Expr::RepExact(e, k) => {
+                let n = self.conv_raw(e);
+                self.node(Ex::RepCount(Box::new(n), *k, Some(*k)))
+            }
+            Expr::RepMin(e, k) => {
+                let n = self.conv_raw(e);
+                self.node(Ex::RepCount(Box::new(n), *k, None))
+            }
+            Expr::RepMax(e, k) => {
+                let n = self.conv_raw(e);
+                self.node(Ex::RepCount(Box::new(n), 0, Some(*k)))
+            }
+            Expr::RepMinMax(e, a, b) => {
+                let n = self.conv_raw(e);
+                self.node(Ex::RepCount(Box::new(n), *a, Some(*b)))
+            }
+            Expr::Skip(v) => self.node(Ex::Skip(v.clone())),
+            Expr::Push(e) => {
+                let n = self.conv_raw(e);
+                self.node(Ex::Push(Box::new(n)))
+            }
+            #[cfg(feature = "extras")]
+            Expr::NodeTag(e, _) => self.conv_raw(e),
+        }
+    }
+}
+
 impl Grammar {
+    /// Parse + validate, *without* pest's optimizer: the AST that pest-typed translates with
+    /// `pest_optimizer = false` (`e+` and counted repetitions stay single nodes).
+    pub fn load_raw(src: &str) -> Result<Grammar, String> {
+        let pairs = pest_meta::parser::parse(pest_meta::parser::Rule::grammar_rules, src).map_err(|e| format!("{}", e))?;
+        let rules = pest_meta::parser::consume_rules(pairs).map_err(|errs| errs.iter().map(|e| format!("{}", e)).collect::<Vec<_>>().join("\n"))?;
+        let mut by_name = HashMap::new();
+        for (i, r) in rules.iter().enumerate() {
+            by_name.insert(r.name.clone(), i);
+        }
+        let mut conv = Conv {
+            by_name: &by_name,
+            next_id: 0,
+            errors: vec![],
+        };
+        let mut defs = vec![];
+        for r in &rules {
+            let kind = match r.ty {
+                RuleType::Normal => Kind::Normal,
+                RuleType::Silent => Kind::Silent,
+                RuleType::Atomic => Kind::Atomic,
+                RuleType::CompoundAtomic => Kind::Compound,
+                RuleType::NonAtomic => Kind::NonAtomic,
+            };
+            let body = conv.conv_raw(&r.expr);
+            defs.push(RuleDef {
+                name: r.name.clone(),
+                kind,
+                body,
+                is_skip_rule: r.name == "WHITESPACE" || r.name == "COMMENT",
+            });
+        }
+        if !conv.errors.is_empty() {
+            return Err(conv.errors.join("; "));
+        }
+        let n_nodes = conv.next_id;
+        let whitespace = by_name.get("WHITESPACE").copied();
+        let comment = by_name.get("COMMENT").copied();
+        Ok(Grammar {
+            src: src.to_string(),
+            rules: defs,
+            by_name,
+            whitespace,
+            comment,
+            n_nodes,
+        })
+    }
+
     /// Parse + validate + optimize with pest_meta, then convert.
     pub fn load(src: &str) -> Result<Grammar, String> {
         let (_, rules) = pest_meta::parse_and_optimize(src).map_err(|errs| {
@@ -350,6 +490,8 @@ pub fn show(n: &Node) -> String {
         Ex::Opt(e) => format!("{}?", show(e)),
         Ex::Rep(e) => format!("{}*", show(e)),
         Ex::RepOnce(e) => format!("{}+", show(e)),
+        Ex::RepCount(e, a, Some(b)) => format!("{}{{{},{}}}", show(e), a, b),
+        Ex::RepCount(e, a, None) => format!("{}{{{},}}", show(e), a),
         Ex::Skip(v) => format!("SKIP_UNTIL{:?}", v),
         Ex::Push(e) => format!("PUSH({})", show(e)),
         Ex::Restore(e) => format!("RESTORE({})", show(e)),
